@@ -691,11 +691,13 @@ func (obj *SparseFloat32Matrix) JointIterator(b ConstMatrix) MatrixJointIterator
 }
 func (obj *SparseFloat32Matrix) ITERATOR() *SparseFloat32MatrixIterator {
   r := SparseFloat32MatrixIterator{*obj.values.ITERATOR(), obj}
+  r.skip()
   return &r
 }
 func (obj *SparseFloat32Matrix) ITERATOR_FROM(i, j int) *SparseFloat32MatrixIterator {
   k := obj.index(i, j)
   r := SparseFloat32MatrixIterator{*obj.values.ITERATOR_FROM(k), obj}
+  r.skip()
   return &r
 }
 func (obj *SparseFloat32Matrix) JOINT_ITERATOR(b ConstMatrix) *SparseFloat32MatrixJointIterator {
@@ -716,6 +718,20 @@ type SparseFloat32MatrixIterator struct {
 }
 func (obj *SparseFloat32MatrixIterator) Index() (int, int) {
   return obj.m.ij(obj.SparseFloat32VectorIterator.Index())
+}
+func (obj *SparseFloat32MatrixIterator) Next() {
+  obj.SparseFloat32VectorIterator.Next()
+  obj.skip()
+}
+// skip the entries of the underlying storage that lie outside the matrix
+// (a matrix obtained with Slice() shares the storage of its parent)
+func (obj *SparseFloat32MatrixIterator) skip() {
+  for obj.SparseFloat32VectorIterator.Ok() {
+    if i, j := obj.Index(); i >= 0 && i < obj.m.rows && j >= 0 && j < obj.m.cols {
+      break
+    }
+    obj.SparseFloat32VectorIterator.Next()
+  }
 }
 func (obj *SparseFloat32MatrixIterator) Clone() *SparseFloat32MatrixIterator {
   return &SparseFloat32MatrixIterator{*obj.SparseFloat32VectorIterator.Clone(), obj.m}
